@@ -22,7 +22,7 @@ CONSTANTS Levels,            \* runtime levels explored, e.g. {0, 1}
 VARIABLES level, last        \* last = id of the row called last (0 = none yet); a run walks the table in order
 vars == <<level, last>>
 
-FailClasses == {"FALSE", "NULL", "MINUS1", "CMP_LESS", "CMP_GREATER", "NAN", "ZERO", "TYPENAME", "VOID",
+FailClasses == {"FALSE", "NULL", "MINUS1", "CMP_LESS", "CMP_GREATER", "CMP_EQUAL", "NAN", "ZERO", "TYPENAME", "VOID",
                 "ANY"}     \* ANY: object argument of a method that documents no failure value (value and allocation not judged)
 GuardKinds  == {"ASSERT_RVAL", "REQUIRE_RVAL", "ASSERT", "REQUIRE", "SPIF_OBJ_COMP_CHECK_NULL", "SPIF_COMP_CHECK_NULL", "none"}
 RowIds  == 1 .. Len(Rows)
@@ -31,8 +31,18 @@ Claimed == {i \in RowIds : Rows[i].claimed}
 Allowed(i, lv) == IF ~Rows[i].claimed THEN {}
                   ELSE IF lv = 0 THEN {"soft"} ELSE {"soft", "fatal"}
 
+\* Variants of a call of row i (R8 of the table generator).  The guard sits at the function's entry, so the contract does not
+\* depend on the companion arguments:  "mid"  - integer arguments at a mid-range value
+\*                                      "zero" - every integer companion argument 0      (a length of 0 is not a licence to skip the guard)
+\*                                      "neg"  - every signed integer companion argument -1
+\*                                      "allnull" - EVERY pointer argument NULL: the first entry guard decides (Rows[i].allnull)
+Variants(i) == {"mid"} \cup (IF Rows[i].nint > 0 THEN {"zero"} ELSE {})
+                       \cup (IF Rows[i].nsigned > 0 THEN {"neg"} ELSE {})
+                       \cup (IF Rows[i].allnull # "NONE" THEN {"allnull"} ELSE {})
+Expected(i, v) == IF v = "allnull" THEN Rows[i].allnull ELSE Rows[i].fail
+
 \* what the two outcomes look like to an observer (used by the trace specification)
-SoftOutcome(i)  == [ended |-> "returned", rv |-> Rows[i].fail, changed |-> FALSE, heapdelta |-> 0]
+SoftOutcome(i, v) == [ended |-> "returned", rv |-> Expected(i, v), changed |-> FALSE, heapdelta |-> 0]
 FatalOutcome    == [ended |-> "exit", diag |-> "fatal"]
 
 View(lv, l) == [level |-> lv, last |-> l]
@@ -44,7 +54,7 @@ OpSetLevel(lv) == Step("set_level", <<lv>>, TRUE, lv, last)
 NextTab == [k \in 0 .. Len(Rows) |->
                IF \E j \in Claimed : j > k THEN CHOOSE j \in Claimed : j > k /\ \A j2 \in (k + 1) .. (j - 1) : j2 \notin Claimed ELSE 0]
 OpCall(i) == /\ i = NextTab[last]
-             /\ \E o \in Allowed(i, level) : Step("call", <<i, Rows[i].key>>, o, level, i)
+             /\ \E v \in Variants(i), o \in Allowed(i, level) : Step("call", <<i, Rows[i].key, v>>, o, level, i)
 
 Init == level = 0 /\ last = 0
 Next == \/ \E lv \in Levels : OpSetLevel(lv)
@@ -57,6 +67,8 @@ TypeOK == level \in Levels /\ last \in {0} \cup RowIds
 TableWellFormed ==
     /\ \A i \in RowIds : Rows[i].id = i /\ Rows[i].guard \in GuardKinds
     /\ \A i \in RowIds : Rows[i].claimed => Rows[i].fail \in FailClasses
+    /\ \A i \in RowIds : Rows[i].allnull # "NONE" => (Rows[i].claimed /\ Rows[i].allnull \in FailClasses)
+    /\ \A i \in RowIds : Rows[i].nsigned <= Rows[i].nint /\ (Rows[i].nint > 0 => Rows[i].claimed)
     /\ \A i \in RowIds : (Rows[i].guard # "none" /\ Rows[i].fail # "NONE") => Rows[i].claimed
     /\ Cardinality({Rows[i].key : i \in RowIds}) = Len(Rows)
 ASSUME TableWellFormed
